@@ -558,6 +558,9 @@ def run_case(case):
     variants = [([cps[i] for i in p], cas) for p in perms]
     if len(cas) > 1:
         variants.append((cps, cas[::-1]))
+    if task == "sound_event_classification" and any(len(cp.sound_events) > 1 for cp in cps):
+        # the predictions of a clip list its sound events in another order than the annotations do (pairing is by sound event)
+        variants.append(([cp.model_copy(update={"sound_events": list(cp.sound_events)[::-1]}) for cp in cps], cas))
     for p2, a2 in variants:
         try:
             ev2 = fn(p2, a2, V)
